@@ -9,12 +9,12 @@ import (
 	"sync"
 	"sync/atomic"
 
+	"berty.tech/go-ipfs-log/keystore"
 	orbitdb "berty.tech/go-orbit-db"
 	"berty.tech/go-orbit-db/baseorbitdb"
 	"berty.tech/go-orbit-db/cache"
 	"berty.tech/go-orbit-db/iface"
 	"berty.tech/go-orbit-db/stores/replicator"
-	"berty.tech/go-ipfs-log/keystore"
 	blocks "github.com/ipfs/go-block-format"
 	cid "github.com/ipfs/go-cid"
 	ds "github.com/ipfs/go-datastore"
@@ -45,6 +45,8 @@ type PeerOpts struct {
 	DirOverride  string
 	PlainBus     bool // use an untraced bus
 	DefaultCache bool
+	// DirectFactory overrides the simulated direct channel (C12 raw frames, C20).
+	DirectFactory iface.DirectChannelFactory
 }
 
 type Peer struct {
@@ -156,13 +158,17 @@ func (p *Peer) Start() error {
 	opts := &baseorbitdb.NewOrbitDBOptions{
 		PubSub:   &simPubSub{p: p},
 		EventBus: bus,
-		DirectChannelFactory: func(ctx context.Context, emitter iface.DirectChannelEmitter, _ *iface.DirectChannelOptions) (iface.DirectChannel, error) {
+	}
+	if p.Opts.DirectFactory != nil {
+		opts.DirectChannelFactory = p.Opts.DirectFactory
+	} else {
+		opts.DirectChannelFactory = func(ctx context.Context, emitter iface.DirectChannelEmitter, _ *iface.DirectChannelOptions) (iface.DirectChannel, error) {
 			d := &simDirect{p: p, emitter: emitter}
 			p.dmu.Lock()
 			p.direct = d
 			p.dmu.Unlock()
 			return d, nil
-		},
+		}
 	}
 	if p.Dir != "" {
 		dir := p.Dir
@@ -333,6 +339,16 @@ func (d *dagWrap) Get(ctx context.Context, c cid.Cid) (ipld.Node, error) {
 		}
 		gate := w.gate
 		iso := w.isolated[p.Idx] || w.closed
+		if src == nil && w.FailFastUnknown && !iso {
+			any := false
+			for _, o := range w.peers {
+				if o.Idx != p.Idx && o.HasBlock(ctx, c) {
+					any = true
+					break
+				}
+			}
+			iso = !any
+		}
 		w.mu.Unlock()
 		if src != nil {
 			if gate != nil {
